@@ -7,11 +7,15 @@
 package main
 
 import (
+	"os"
 	"bytes"
 	"encoding/json"
 	"fmt"
 	"io"
+	"reflect"
+	"regexp"
 	"runtime"
+	"sort"
 	"strings"
 	"time"
 
@@ -122,7 +126,7 @@ func mutants(d any, tier string) []mutant {
 	for _, pos := range ukit.Positions(d) {
 		if pos.IsKey {
 			// rename the key / duplicate semantics are covered below; here: key replaced by odd keys
-			for _, k := range []any{"renamed_key", int64(1), "", true} {
+			for _, k := range []any{"renamed_key", int64(1), "", true, int64(-1), int64(0)} {
 				if m := pos.Replace(k); m != nil {
 					out = append(out, mutant{m, fmt.Sprintf("key at %s -> %s", pos.Path, ukit.Show(k))})
 				}
@@ -133,7 +137,12 @@ func mutants(d any, tier string) []mutant {
 			out = append(out, mutant{pos.Replace(ukit.DeepCopy(r)), fmt.Sprintf("value at %s -> %s", pos.Path, ukit.Show(r))})
 		}
 	}
-	// targeted: delete key, duplicate under another key, re-point references, flip inlining, bad default, bad pattern
+	return append(out, targeted(d)...)
+}
+
+// targeted: delete key, duplicate under another key, re-point references, flip inlining, bad default, bad pattern
+func targeted(d any) []mutant {
+	var out []mutant
 	var walk func(v any, path string, rebuild func(with any) any)
 	walk = func(v any, path string, rebuild func(with any) any) {
 		switch x := v.(type) {
@@ -311,8 +320,14 @@ func historyPass(res *ux.Result, lo int, rejected []reload) {
 
 func (c *checker) fail(sig, detail string) { c.res.Add(sig, detail, c.rp) }
 
+var slowOps = os.Getenv("VERIF_C10_WHOLE") != ""
+
 func (c *checker) guard(phase, what string, f func()) bool {
+	t0 := time.Now()
 	pan, val, stack := ukit.Call(f)
+	if slowOps && time.Since(t0) > 50*time.Millisecond {
+		fmt.Printf("SLOW OP %v: %s [%s]\n", time.Since(t0), what, c.rp.What)
+	}
 	if pan {
 		c.fail(fmt.Sprintf("panic %s in %s: %s", phase, lib.PanicSite(stack), firstWords(lib.PanicClass(fmt.Sprint(val)), 6)),
 			fmt.Sprintf("base %s\nmutation: %s\n%s panicked: %v", c.rp.Base, c.rp.What, what, val))
@@ -331,7 +346,82 @@ func firstWords(s string, n int) string {
 var hostile = ukit.Hostile()
 
 // exercise: the schema must be total on valid values of the base, their wrong-type neighbours and hostile values.
+// unitsIn collects the unit definitions reachable from a loaded schema (exported fields, maps, slices, pointers).
+func unitsIn(v reflect.Value, seen map[uintptr]bool, out *[]*schema.UnitsDefinition) {
+	switch v.Kind() {
+	case reflect.Interface:
+		if !v.IsNil() {
+			unitsIn(v.Elem(), seen, out)
+		}
+	case reflect.Pointer:
+		if v.IsNil() || !v.CanInterface() || seen[v.Pointer()] {
+			return
+		}
+		seen[v.Pointer()] = true
+		if u, ok := v.Interface().(*schema.UnitsDefinition); ok {
+			*out = append(*out, u)
+			return
+		}
+		if _, ok := v.Interface().(*regexp.Regexp); ok {
+			return
+		}
+		unitsIn(v.Elem(), seen, out)
+	case reflect.Struct:
+		for i := 0; i < v.NumField(); i++ {
+			if v.Type().Field(i).IsExported() {
+				unitsIn(v.Field(i), seen, out)
+			}
+		}
+	case reflect.Map:
+		keys := v.MapKeys()
+		sort.Slice(keys, func(i, j int) bool { return fmt.Sprint(keys[i]) < fmt.Sprint(keys[j]) })
+		for _, k := range keys {
+			unitsIn(v.MapIndex(k), seen, out)
+		}
+	case reflect.Slice:
+		for i := 0; i < v.Len(); i++ {
+			unitsIn(v.Index(i), seen, out)
+		}
+	}
+}
+
+// exerciseUnits: first use of every unit definition the plugin sent - parsing a count with each of its unit names
+// and formatting a few quantities (what an engine does when it reads a workflow and shows a value).
+func (c *checker) exerciseUnits(name string, root any) {
+	var us []*schema.UnitsDefinition
+	unitsIn(reflect.ValueOf(root), map[uintptr]bool{}, &us)
+	for ui, u := range us {
+		var names []string
+		add := func(d *schema.UnitDefinition) {
+			if d != nil {
+				names = append(names, d.NameShortPluralValue, d.NameLongPluralValue)
+			}
+		}
+		add(u.BaseUnitValue)
+		ms := make([]int64, 0, len(u.MultipliersValue))
+		for m := range u.MultipliersValue {
+			ms = append(ms, m)
+		}
+		sort.Slice(ms, func(i, j int) bool { return ms[i] < ms[j] })
+		for _, m := range ms {
+			add(u.MultipliersValue[m])
+		}
+		for _, n := range names {
+			c.res.Evaluations++
+			c.guard("on first use", fmt.Sprintf("%s: units #%d ParseInt(\"3%s\")", name, ui, n), func() { _, _ = u.ParseInt("3" + n); _, _ = u.ParseFloat("1.5 " + n) })
+		}
+		c.res.Evaluations++
+		c.guard("on first use", fmt.Sprintf("%s: units #%d formatting", name, ui), func() {
+			_ = u.FormatShortInt(3661)
+			_ = u.FormatLongInt(3661)
+			_ = u.FormatShortFloat(90.5)
+			_ = u.FormatLongFloat(90.5)
+		})
+	}
+}
+
 func (c *checker) exercise(name string, sch schema.Scope, values []any) {
+	c.exerciseUnits(name, sch)
 	c.guard("on first use", name+".SelfSerialize", func() { _, _ = sch.SelfSerialize() })
 	c.guard("on first use", name+".ValidateReferences", func() { _ = sch.ValidateReferences() })
 	try := func(v any, desc string) {
@@ -351,7 +441,7 @@ func (c *checker) exercise(name string, sch schema.Scope, values []any) {
 		try(v, ukit.Show(v))
 		if m, ok := v.(map[string]any); ok {
 			// one level down: each entry replaced by a few hostile values
-			for k := range m {
+			for _, k := range ukit.SortedKeys(m) {
 				for _, h := range hostile[:12] {
 					n := map[string]any{}
 					for a, b := range m {
@@ -458,6 +548,36 @@ func cases(b base, kind, tier string) []mutant {
 	return mutants(b.Desc, tier)
 }
 
+// structural reports whether a targeted mutation is used as the first of a pair (duplicated entries are not: the
+// meta-schema rejects every undeclared key at once, so nothing can hide behind them).
+func structural(m mutant) bool { return !strings.HasPrefix(m.What, "duplicate ") }
+
+// batchCases returns the mutants a batch iterates over and the index range within them. Double mutations (thorough
+// tier) are enumerated per first mutation: the batch names a range of targeted first mutations, and its cases are all
+// targeted mutations of each of those already mutated descriptions.
+func batchCases(bb base, b batch, tier string) (ms []mutant, lo, hi int) {
+	if b.Kind != "double" {
+		ms = cases(bb, b.Kind, tier)
+		hi = b.Hi
+		if hi > len(ms) {
+			hi = len(ms)
+		}
+		return ms, b.Lo, hi
+	}
+	first := targeted(bb.Desc)
+	for i := b.Lo; i < b.Hi && i < len(first); i++ {
+		if !structural(first[i]) {
+			continue
+		}
+		for _, m2 := range targeted(first[i].Desc) {
+			if structural(m2) {
+				ms = append(ms, mutant{m2.Desc, first[i].What + "  AND  " + m2.What})
+			}
+		}
+	}
+	return ms, 0, len(ms)
+}
+
 func runRange(tier string, b batch, res *ux.Result, onlyIdx int) {
 	runRangeFrom(tier, b, 0, res, onlyIdx)
 }
@@ -465,21 +585,21 @@ func runRange(tier string, b batch, res *ux.Result, onlyIdx int) {
 func runRangeFrom(tier string, b batch, from int, res *ux.Result, onlyIdx int) {
 	bs := bases(tier)
 	bb := bs[b.Base]
-	ms := cases(bb, b.Kind, tier)
+	ms, lo, hi := batchCases(bb, b, tier)
 	values := ukit.ValidValues(bb.Spec, 2)
 	raws := ukit.RawValues(bb.Spec)
-	for i := 0; i < len(raws) && len(values) < 8; i += len(raws)/6 + 1 {
+	want := 8
+	if tier == "thorough" {
+		want = 40
+	}
+	for i := 0; i < len(raws) && len(values) < want; i += len(raws)/(want-2) + 1 {
 		values = append(values, raws[i])
 	}
 	if len(values) == 0 {
 		values = []any{map[string]any{}}
 	}
-	hi := b.Hi
-	if hi > len(ms) {
-		hi = len(ms)
-	}
 	var rejected []reload
-	for i := b.Lo + from; i < hi; i++ {
+	for i := lo + from; i < hi; i++ {
 		if onlyIdx >= 0 && i != onlyIdx {
 			continue
 		}
@@ -487,7 +607,7 @@ func runRangeFrom(tier string, b batch, from int, res *ux.Result, onlyIdx int) {
 			res.Capped = true
 			break
 		}
-		ux.Progress(i - b.Lo)
+		ux.Progress(i - lo)
 		c := &checker{res: res, rp: replay{Base: bb.Name, What: ms[i].What, Index: i, BaseI: b.Base, Kind: b.Kind, Tier: tier, Lo: b.Lo, Hi: b.Hi}}
 		if onlyIdx < 0 {
 			c.rejected = &rejected
@@ -502,11 +622,52 @@ func runRangeFrom(tier string, b batch, from int, res *ux.Result, onlyIdx int) {
 		}
 	}
 	if onlyIdx < 0 {
-		historyPass(res, b.Lo, rejected)
+		historyPass(res, lo, rejected)
 	}
 }
 
 func main() {
+	if v := os.Getenv("VERIF_C10_BATCH"); v != "" {
+		// debugging aid: run one batch in this process and report slow cases
+		var b batch
+		_ = json.Unmarshal([]byte(v), &b)
+		bb := bases("thorough")[b.Base]
+		ms, lo, hi := batchCases(bb, b, "thorough")
+		fmt.Println("base", bb.Name, "cases", hi-lo)
+		if os.Getenv("VERIF_C10_WHOLE") != "" {
+			t0 := time.Now()
+			var res ux.Result
+			go func() {
+				for {
+					time.Sleep(5 * time.Second)
+					fmt.Println("  ...", time.Since(t0), "evaluations", res.Evaluations)
+				}
+			}()
+			runRangeFrom("thorough", b, 0, &res, -1)
+			fmt.Println("whole batch:", time.Since(t0), "evaluations", res.Evaluations, "findings", len(res.Findings))
+			return
+		}
+		for i := lo; i < hi; i++ {
+			t0 := time.Now()
+			done := make(chan struct{})
+			go func() {
+				var res ux.Result
+				runRangeFrom("thorough", b, 0, &res, i)
+				close(done)
+			}()
+			select {
+			case <-done:
+			case <-time.After(20 * time.Second):
+				fmt.Println("SLOW (>20s):", i, ms[i].What)
+				fmt.Println(ukit.Show(ms[i].Desc))
+				os.Exit(0)
+			}
+			if d := time.Since(t0); d > time.Second {
+				fmt.Println("slow", i, d, ms[i].What)
+			}
+		}
+		return
+	}
 	ux.Main(ux.Harness{
 		Property:    "C10",
 		Level:       "fault_enumeration",
@@ -525,6 +686,15 @@ func main() {
 			for lo := 0; lo < n; lo += 400 {
 				out = append(out, batch{0, "free", lo, lo + 400})
 			}
+			if tier == "thorough" {
+				// double mutations: every pair of targeted mutations (the second applied to the already mutated description)
+				for bi, b := range bases(tier) {
+					n := len(targeted(b.Desc))
+					for lo := 0; lo < n; lo += 1 {
+						out = append(out, batch{bi, "double", lo, lo + 1})
+					}
+				}
+			}
 			return out
 		},
 		Run: func(tier string, raw json.RawMessage, from int, deadline time.Time) ux.Result {
@@ -532,8 +702,8 @@ func main() {
 			_ = json.Unmarshal(raw, &b)
 			var res ux.Result
 			runRangeFrom(tier, b, from, &res, -1)
-			if b.Lo == 0 && b.Base%5 == 0 {
-				ms := cases(bases(tier)[b.Base], b.Kind, tier)
+			if b.Lo == 0 && b.Base%5 == 0 && b.Kind != "double" {
+				ms, _, _ := batchCases(bases(tier)[b.Base], b, tier)
 				res.Samples = append(res.Samples, map[string]any{"base": bases(tier)[b.Base].Name, "mutations": len(ms), "example": ms[len(ms)/2].What})
 			}
 			return res
@@ -542,12 +712,12 @@ func main() {
 			var b batch
 			_ = json.Unmarshal(raw, &b)
 			bb := bases(tier)[b.Base]
-			ms := cases(bb, b.Kind, tier)
-			idx := b.Lo + i
+			ms, lo, _ := batchCases(bb, b, tier)
+			idx := lo + i
 			if idx >= len(ms) {
 				return "?", nil
 			}
-			return fmt.Sprintf("base %s, mutation %s", bb.Name, ms[idx].What), replay{Base: bb.Name, What: ms[idx].What, Index: idx, BaseI: b.Base, Kind: b.Kind, Tier: tier}
+			return fmt.Sprintf("base %s, mutation %s", bb.Name, ms[idx].What), replay{Base: bb.Name, What: ms[idx].What, Index: idx, BaseI: b.Base, Kind: b.Kind, Tier: tier, Lo: b.Lo, Hi: b.Hi}
 		},
 		Replay: func(raw json.RawMessage) []ux.Finding {
 			var r replay
@@ -560,12 +730,16 @@ func main() {
 				runRange(r.Tier, batch{r.BaseI, r.Kind, r.Lo, r.Hi}, &res, -1)
 				return res.Findings
 			}
+			if r.Kind == "double" {
+				runRange(r.Tier, batch{r.BaseI, r.Kind, r.Lo, r.Hi}, &res, r.Index)
+				return res.Findings
+			}
 			runRange(r.Tier, batch{r.BaseI, r.Kind, 0, 1 << 30}, &res, r.Index)
 			return res.Findings
 		},
-		Rule: "base descriptions: self-descriptions (CBOR-normalised) of ~18 scopes (references under properties / lists / maps / one-of, recursive and mutually recursive objects, nested scope with colliding ids, struct-mapped objects, all one-of flavours, an object with units, patterns, enums with display names, defaults and every presence rule) (thorough: plus the depth-2 universe) and one whole plugin schema; every single mutation at every node: value retyped to each of 12 alien values, key replaced, entry deleted, entry duplicated, id / root / namespace / discriminator re-pointed, inlining flag flipped, default replaced by unparsable JSON, pattern replaced by '(', type_id replaced; plus a grammar-free family of ~3000 trees of depth <= 2 over the meta-schema's key vocabulary; entry points UnserializeScope, UnserializeSchema and Client.ReadSchema (real hello bytes); every schema that is returned is exercised: SelfSerialize, ValidateReferences, and the four operations on valid values of the base, the same with hostile values one level down, and hostile values at top level; load history: every description rejected in a batch of 400 is loaded again twice in the same process, each time after a garbage collection, and must be rejected again (whatever is returned is exercised); non-trivial = mutants that were accepted (and therefore exercised)",
+		Rule: "base descriptions: self-descriptions (CBOR-normalised) of ~18 scopes (references under properties / lists / maps / one-of, recursive and mutually recursive objects, nested scope with colliding ids, struct-mapped objects, all one-of flavours, an object with units, patterns, enums with display names, defaults and every presence rule) (thorough: plus the depth-2 universe) and one whole plugin schema; every single mutation at every node: value retyped to each of 12 alien values, key replaced (by a foreign name, 1, the empty string, true, -1, 0), entry deleted, entry duplicated, id / root / namespace / discriminator re-pointed, inlining flag flipped, default replaced by unparsable JSON, pattern replaced by '(', type_id replaced; thorough: every pair of targeted mutations; plus a grammar-free family of ~3000 trees of depth <= 2 over the meta-schema's key vocabulary; entry points UnserializeScope, UnserializeSchema and Client.ReadSchema (real hello bytes); every schema that is returned is exercised: first use of every unit definition in it (parsing a count with each unit name, formatting), SelfSerialize, ValidateReferences, and the four operations on valid values of the base, the same with hostile values one level down, and hostile values at top level; load history: every description rejected in a batch of 400 is loaded again twice in the same process, each time after a garbage collection, and must be rejected again (whatever is returned is exercised); non-trivial = mutants that were accepted (and therefore exercised)",
 		Assumptions: []string{
-			"single mutation per description (double mutations are not enumerated)",
+			"quick tier: single mutations; thorough tier: also every pair of targeted mutations (delete, re-point, flip, unparsable default, bad pattern, type_id), the second applied to the already mutated description; pairs involving retyped values or duplicated entries are not enumerated",
 			"a panic at load time or on first use is a violation; errors are the expected outcome",
 		},
 	})
